@@ -63,8 +63,8 @@ inline bool is_sleep_field(const std::string& n) {
   return s.count(n) > 0;
 }
 
-inline bool contact_equal(const mjContact& a, const mjContact& b, const char** which) {
-#define X(name) if (memcmp(&a.name, &b.name, sizeof a.name)) { *which = #name; return false; }
+inline bool contact_equal(const mjContact& a, const mjContact& b, const char** which, bool skip_H = false) {
+#define X(name) if (!(skip_H && !strcmp(#name, "H")) && memcmp(&a.name, &b.name, sizeof a.name)) { *which = #name; return false; }
   VGEN_MJCONTACT_FIELDS
 #undef X
   return true;
@@ -95,7 +95,7 @@ inline Diff compare(const mjModel* m, const mjData* a, const mjData* b, const st
     if (ra != rb) return fail(f.name, -1, "extent differs");
     if (ra <= 0) continue;
     if (f.is_contact) {
-      for (long i = 0; i < ra; i++) { const char* w = ""; if (!contact_equal(((mjContact*)pa)[i], ((mjContact*)pb)[i], &w)) return fail("contact", i, w); }
+      for (long i = 0; i < ra; i++) { const char* w = ""; if (!contact_equal(((mjContact*)pa)[i], ((mjContact*)pb)[i], &w, exclude.count("contact.H") > 0)) return fail("contact", i, w); }
       continue;
     }
     size_t nb = (size_t)ra * f.nc * f.elsize;
